@@ -26,7 +26,18 @@ def build(path, auto):
     src = b.create_source("src", "t")
     sec = f.create_section("sec", "t")
     sec2 = f.create_section("sec2", "t")
-    return f, dict(block=b, da=da, da2=da2, tag=tag, mt=mt, ft=ft, g=g, src=src, sec=sec, sec2=sec2)
+    # a range dimension linked to an array, one linked to a data-frame column: what is set THROUGH the dimension lands on
+    # the linked object
+    lda = b.create_data_array("lda", "t", data=np.arange(3.0))
+    ldf = b.create_data_frame("ldf", "t", col_dict={"x": float}, data=[(1.0,), (2.0,), (3.0,)])
+    ldf.units = ["s"]
+    host = b.create_data_array("host", "t", data=np.zeros((3, 3)))
+    rd1 = host.append_range_dimension()
+    rd1.link_data_array(lda, [-1])
+    rd2 = host.append_range_dimension()
+    rd2.link_data_frame(ldf, 0)
+    return f, dict(block=b, da=da, da2=da2, tag=tag, mt=mt, ft=ft, g=g, src=src, sec=sec, sec2=sec2, lda=lda, ldf=ldf, host=host,
+                   _rd1=rd1, _rd2=rd2)
 
 
 def cases(e):
@@ -83,11 +94,16 @@ def cases(e):
     out.append(("~DataArray.metadata = <section>", "da", lambda: setattr(da, "metadata", sec)))
     out.append(("~del DataArray.metadata", "da", lambda: delattr(da, "metadata")))
     out.append(("~Section.create_property()", "sec", lambda: sec.create_property("np", [1])))
+    rd1, rd2 = e["_rd1"], e["_rd2"]
+    out.append(("~linked RangeDimension.unit = 'ms' (array)", "lda", lambda: setattr(rd1, "unit", "ms")))
+    out.append(("~linked RangeDimension.label = 'x' (array)", "lda", lambda: setattr(rd1, "label", "x")))
+    out.append(("~linked RangeDimension.dimension_link.unit = 's' (array)", "lda", lambda: setattr(rd1.dimension_link, "unit", "s")))
+    out.append(("~linked RangeDimension.unit = 'ms' (frame column)", "ldf", lambda: setattr(rd2, "unit", "ms")))
     return out
 
 
 def stamps(e):
-    return {k: (int(v.created_at), int(v.updated_at)) for k, v in e.items()}
+    return {k: (int(v.created_at), int(v.updated_at)) for k, v in e.items() if not k.startswith("_")}
 
 
 def main():
@@ -106,9 +122,9 @@ def main():
             except Exception as exc:
                 err = type(exc).__name__
             after = stamps(e)
-            moved = sorted(k for k in e if after[k] != before[k])
+            moved = sorted(k for k in after if after[k] != before[k])
             entry = {"setter": label + (" (clock running backwards)" if tick < 0 else ""), "auto": auto, "clock": CLOCK[0], "raised": err, "moved": moved,
-                     "updated_at": after[key][1], "created_changed": sorted(k for k in e if after[k][0] != before[k][0])}
+                     "updated_at": after[key][1], "created_changed": sorted(k for k in after if after[k][0] != before[k][0])}
             if err is None:
                 if label.startswith("~"):
                     entry["ok"] = (moved in ([], [key]) if auto else moved == []) and not entry["created_changed"]
